@@ -188,8 +188,8 @@ def centerLines (pfx centered sfx : List Str) (h : Nat) : List Str :=
              else if top < ph then pfx.drop (ph - top) else pfx
     let s := if bottom > sh then sfx ++ List.replicate (bottom - sh) []
              else if bottom < sh then sfx.take bottom else sfx
-    -- prefix + "\n" + centered + "\n" + suffix
-    p ++ centered ++ s
+    -- top == 0: centered + "\n" + suffix; otherwise prefix + "\n" + centered + "\n" + suffix
+    if top = 0 then centered ++ s else p ++ centered ++ s
 
 /-- `ansi.CenterVertically`, string level, transcribed literally. -/
 def centerVertically (pfx centered sfx : Str) (h : Nat) : Str :=
@@ -205,7 +205,8 @@ def centerVertically (pfx centered sfx : Str) (h : Nat) : Str :=
              else if top < ph then joinNL ((splitNL pfx).drop (ph - top)) else pfx
     let s := if bottom > sh then sfx ++ rep '\n' (bottom - sh)
              else if bottom < sh then joinNL ((splitNL sfx).take bottom) else sfx
-    p ++ '\n' :: centered ++ '\n' :: s
+    if top = 0 then centered ++ '\n' :: s
+    else p ++ '\n' :: centered ++ '\n' :: s
 
 /-- Position of the last `'\n'` (`strings.LastIndex`). -/
 def lastIndexNL (s : Str) : Option Nat :=
